@@ -261,6 +261,11 @@ func (c *channel) sendSession(ctx context.Context, ses *Session) error {
 		return fmt.Errorf("send session: cannot do in the %v state", state)
 	}
 
+	// The session envelopes share the transport with the other envelopes,
+	// which may be in the middle of a write on another goroutine
+	c.sendMu.Lock()
+	defer c.sendMu.Unlock()
+
 	err := c.transport.Send(ctx, ses)
 	if err != nil {
 		return fmt.Errorf("send session: transport error: %w", err)
